@@ -23,6 +23,8 @@ Extracted (every run, from the working tree under test):
                   states (after a complete statement, inside a continued statement, inside
                   a `!>` / `!|` / `!*` block, after a doc line, ...): the items it yields,
                   that it raises, or that it does not come back within 2 s.
+  * `patterns`   - every regular expression applied while a source file is read and parsed, as
+                  the syntax tree `re` builds for it (see translate/c20rx.py).
 A construct that cannot be found raises (the check then reports "tie broken").
 """
 from __future__ import annotations
@@ -38,6 +40,7 @@ import textwrap
 from pathlib import Path
 
 from harness import common
+from . import c20rx
 
 KIND_OF_CLASS = {
     "FortranSourceFile": "file",
@@ -447,7 +450,7 @@ def generate() -> str:
     def obs_lean(o):
         return ".items " + lean_list(lean_chars(x) for x in o[1]) if o[0] == "items" else "." + o[0]
     L = ["/- GENERATED by translate/c20.py from ford/sourceform.py and ford/settings.py - do not edit -/",
-         "import FordModel.NestingTypes", "namespace Ford.Gen", "open Ford", "",
+         "import FordModel.NestingTypes", "import FordModel.Backtrack", "namespace Ford.Gen", "open Ford", "",
          "/-- the if/elif chain of FortranContainer.__init__, in source order -/",
          "def cascade : List (Branch × Guard) :=",
          "  " + lean_list(f"(.{b}, .{g})" for b, g in cascade), "",
@@ -471,12 +474,31 @@ def generate() -> str:
          "/-- files ending in each state of the reader (default marks) and what FortranReader does on them -/",
          "def eofProbes : List (List Str × ProbeObs) :=",
          "  [" + ",\n   ".join("(" + lean_list(lean_chars(l) for l in lines) + ", " + obs_lean(o) + ")" for lines, o in eof) + "]",
-         "", "end Ford.Gen", ""]
+         ""] + c20rx.lean_table(lean_chars) + ["", "end Ford.Gen", ""]
     return "\n".join(L)
 
 
+class _TranslateTimeout(BaseException):
+    pass
+
+
 def translate():
-    text = generate()
+    import signal
+
+    def on_alarm(signum, frame):
+        raise _TranslateTimeout()
+
+    # the probes parse small fixed sources with the code under test; none of them may take long
+    old = signal.signal(signal.SIGALRM, on_alarm)
+    signal.alarm(60)
+    try:
+        try:
+            text = generate()
+        except _TranslateTimeout:
+            raise ValueError("the probe sources of the translator were not parsed within 60 s") from None
+    finally:
+        signal.alarm(0)
+        signal.signal(signal.SIGALRM, old)
     common.write_if_changed(common.LEAN / "FordModel" / "Generated" / "C20.lean", text)
 
 
